@@ -235,6 +235,10 @@ def fixed_chains(quick):
 
 
 def ctx_cases():
+    return [dict(c, **{"async": a}) for a in (False, True) for c in _ctx_cases()]
+
+
+def _ctx_cases():
     """the SDK's own default stack (Context::resolver(), real HTTP client) against a loopback server that redirects;
     also shows that the HTTP client itself does not follow redirects (the server must see exactly one request)"""
     locs = ["http://169.254.169.254/latest/meta-data/", "http://127.0.0.1:{port}/next", "/relative", "http://localhost:{port}/next",
@@ -251,10 +255,10 @@ def oracle_ctx(ctx, c, r, stats):
     stats["ctx_runs"] = stats.get("ctx_runs", 0) + 1
     want = "RedirectTargetDisallowed" if c["allow_redirects"] else "RedirectDisallowed"
     if len(r["served"]) != 1:
-        ctx.report_violation(c, f"default resolver stack: after the redirect to {c['location']!r} the local server saw {r['served']} "
+        ctx.report_violation(c, f"default {'async' if c.get('async') else 'sync'} resolver stack: after the redirect to {c['location']!r} the local server saw {r['served']} "
                                 "(the redirect to an internal address was followed, by the SDK or by the HTTP client itself)")
     elif not (r["r"] == "err" and r.get("kind") == want):
-        ctx.report_violation(c, f"default resolver stack: redirect to {c['location']!r} ended with {r['r']}:{r.get('kind') or r.get('status')}, expected {want}")
+        ctx.report_violation(c, f"default {'async' if c.get('async') else 'sync'} resolver stack: redirect to {c['location']!r} ended with {r['r']}:{r.get('kind') or r.get('status')}, expected {want}")
 
 
 def corpus():
